@@ -290,6 +290,27 @@ func genC06(c *Ctx, r *rng.R, i int) {
 			tryErr(c, "convert.Convert(unsettled length, optional element type)", func() (cty.Value, error) { return convert.Convert(src, tty) })
 		}
 	}
+	// a tuple type whose element is a collection of objects with optional attributes (at depth): a null, an
+	// untyped unknown or an empty collection takes its result type from the constraint, without the annotations
+	{
+		inner := cty.ObjectWithOptionalAttrs(map[string]cty.Type{"c": cty.String, "d": cty.Number}, []string{"d"})
+		ety := cty.ObjectWithOptionalAttrs(map[string]cty.Type{"a": cty.String, "b": cty.List(inner)}, []string{"b"})
+		coll := []cty.Type{cty.Map(ety), cty.List(ety), cty.Set(ety), cty.List(cty.Map(inner))}[r.Intn(4)]
+		tup := cty.Tuple([]cty.Type{cty.String, coll})
+		bare := cty.Tuple([]cty.Type{cty.String, cty.Map(cty.EmptyObject)})
+		for _, k := range []struct {
+			src cty.Value
+			tty cty.Type
+		}{
+			{cty.NullVal(cty.DynamicPseudoType), tup}, {cty.DynamicVal, tup}, {cty.NullVal(cty.DynamicPseudoType), cty.List(tup)},
+			{cty.ListValEmpty(bare), cty.List(tup)}, {cty.SetValEmpty(bare), cty.Set(tup)}, {cty.MapValEmpty(bare), cty.Map(tup)},
+			{cty.NullVal(cty.DynamicPseudoType), cty.Object(map[string]cty.Type{"t": tup})},
+			{cty.EmptyTupleVal, cty.List(tup)}, {cty.EmptyObjectVal, cty.Map(tup)},
+		} {
+			k := k
+			tryErr(c, "convert.Convert(typed by the constraint, tuple of collections of optional objects)", func() (cty.Value, error) { return convert.Convert(k.src, k.tty) })
+		}
+	}
 	// codecs
 	if !uv.ContainsMarked() {
 		ty := uv.Type()
